@@ -55,7 +55,7 @@ func (n *c04Node) any(f func(*c04Node) bool) bool {
 
 func (n *c04Node) isCall() bool {
 	switch n.tag() {
-	case c04Call, c04Move, c04MoveNeo, c04SetFee, c04NotifyFee, c04CallMut:
+	case c04Call, c04Move, c04MoveNeo, c04SetFee, c04NotifyFee, c04CallMut, c04Dyn:
 		return true
 	}
 	return false
@@ -67,7 +67,7 @@ func (n *c04Node) bareFree() bool {
 		return true
 	}
 	switch n.tag() {
-	case c04Call, c04CallMut:
+	case c04Call, c04CallMut, c04Dyn:
 		return false
 	case c04Seq:
 		for _, o := range n.Ops {
@@ -167,6 +167,10 @@ func (g *c04Gen) prog(d int) *c04Node {
 			ops[i] = g.prog(d - 1)
 		}
 		return c04SeqOf(ops)
+	case x < 33 && callsOK: // a dynamic script between this frame and the callees
+		sub := *g
+		sub.noBare, sub.inTry = false, false
+		return &c04Node{Op: "dyn", Flags: pick(r, []int{0, 1, 4, 8, 5, 15}), Body: c04SeqOf(c04DynBody(r, &sub, d-1))}
 	case x < 48 && callsOK:
 		sub := *g
 		sub.noBare, sub.inTry = false, false
@@ -272,6 +276,9 @@ func c04Tokenize(r *rng, n *c04Node, inContract bool, pct int) {
 	case c04Move, c04MoveNeo:
 		c04Tokenize(r, n.Body, true, pct)
 		return
+	case c04Dyn: // a dynamic script has no method tokens
+		c04Tokenize(r, n.Body, false, pct)
+		return
 	}
 	for _, o := range n.Ops {
 		c04Tokenize(r, o, inContract, pct)
@@ -279,6 +286,25 @@ func c04Tokenize(r *rng, n *c04Node, inContract bool, pct int) {
 	c04Tokenize(r, n.Body, inContract, pct)
 	c04Tokenize(r, n.Catch, inContract, pct)
 	c04Tokenize(r, n.Fin, inContract, pct)
+}
+
+// the body of a dynamic script: control flow and calls only (it has no storage context and no manifest)
+func c04DynBody(r *rng, g *c04Gen, d int) []*c04Node {
+	var ops []*c04Node
+	for i, n := 0, 1+r.intn(2); i < n; i++ {
+		call := &c04Node{Op: "call", C: r.intn(c04NContracts), Flags: pick(r, c04FlagChoices), Body: g.prog(max(d, 0))}
+		switch x := r.intn(100); {
+		case x < 55 || (i == 0 && x >= 80): // the first thing a dynamic script does is a call
+			ops = append(ops, call)
+		case x < 80:
+			ops = append(ops, &c04Node{Op: "try", Body: call, Catch: &c04Node{Op: "skip"}})
+		case x < 92:
+			ops = append(ops, &c04Node{Op: "throw"})
+		default:
+			ops = append(ops, &c04Node{Op: "skip"})
+		}
+	}
+	return ops
 }
 
 // clone via JSON
@@ -648,6 +674,9 @@ func (p *c04Pair) runCase(co *caseOut, in c04Input) {
 	if root.any(func(x *c04Node) bool { return x.T }) {
 		tag += "/callt"
 	}
+	if root.any(func(x *c04Node) bool { return x.tag() == c04Dyn }) {
+		tag += "/dyn"
+	}
 	if root.any(func(x *c04Node) bool { return x.tag() == c04Mut || x.tag() == c04CallMut }) {
 		tag += "/mut"
 	}
@@ -892,6 +921,48 @@ func runC04(args []string) error {
 				}
 			}
 			runOps([]*c04Node{{Op: "call", C: 0, Flags: 15, Body: c04SeqOf(body)}})
+		}
+	}
+	// 3d. a dynamic script (System.Runtime.LoadScript) between a catching caller and a callee that writes / notifies /
+	//     transfers and then returns, throws or aborts: six requested flag sets, under a try body and at top level
+	for _, df := range []int{0, 1, 4, 8, 5, 15} {
+		for variant := 0; variant < 12 && !broken; variant++ {
+			var eff *c04Node
+			switch r.intn(4) {
+			case 3:
+				eff = &c04Node{Op: "skip"} // allowed under any flags: tells a frame that runs from one that must not
+			case 0:
+				eff = &c04Node{Op: "notify", V: r.intn(10)}
+			case 1:
+				eff = &c04Node{Op: "put", K: r.intn(c04NKeys), V: 1 + r.intn(9)}
+			default:
+				eff = &c04Node{Op: "move", C: r.intn(c04NAcc), V: 1}
+			}
+			cal := []*c04Node{eff}
+			switch variant % 3 {
+			case 1:
+				cal = append(cal, &c04Node{Op: "throw"})
+			case 2:
+				cal = append(cal, &c04Node{Op: "abort", V: r.intn(3)})
+			}
+			var dbody *c04Node = &c04Node{Op: "call", C: 1 + r.intn(2), Flags: 15, Body: c04SeqOf(cal)}
+			if r.chance(25) {
+				dbody = c04SeqOf([]*c04Node{dbody, {Op: "throw"}})
+			}
+			dyn := &c04Node{Op: "dyn", Flags: df, Body: dbody}
+			var inner *c04Node = dyn
+			if variant%6 < 3 {
+				inner = &c04Node{Op: "try", Body: dyn, Catch: &c04Node{Op: "notify", V: 9}}
+			}
+			if r.chance(20) { // LoadScript straight from the entry script
+				runOps([]*c04Node{{Op: "try", Body: dyn, Catch: &c04Node{Op: "skip"}}})
+				continue
+			}
+			if cf := pick(r, []int{15, 15, 14, 4, 12, 6, 5}); cf != 15 { // the loading frame itself has restricted flags
+				runOps([]*c04Node{{Op: "try", Body: &c04Node{Op: "call", C: 0, Flags: cf, Body: inner}, Catch: &c04Node{Op: "skip"}}})
+				continue
+			}
+			runOps([]*c04Node{{Op: "try", Body: &c04Node{Op: "call", C: 0, Flags: 15, Body: c04SeqOf([]*c04Node{{Op: "notify", V: 1}, inner, {Op: "notifyval", K: 0}})}, Catch: &c04Node{Op: "skip"}}})
 		}
 	}
 	// 4. block position: several transactions on the one reused VM, earlier ones ending in every way
